@@ -418,7 +418,14 @@ pub fn run(spec: &RunSpec) -> i32 {
     let me = std::env::current_exe().unwrap();
     let target = me.parent().unwrap().parent().unwrap().to_path_buf();
     let run_dir = target.join(format!("run-{}-{}", spec.prop, std::process::id()));
-    let _ = fs::remove_dir_all(&run_dir);
+    // run directories of earlier runs of this property (kept after violations) are removed
+    if let Ok(rd) = fs::read_dir(&target) {
+        for e in rd.flatten() {
+            if e.file_name().to_string_lossy().starts_with(&format!("run-{}-", spec.prop)) {
+                let _ = fs::remove_dir_all(e.path());
+            }
+        }
+    }
     fs::create_dir_all(&run_dir).unwrap();
     // stale witnesses of earlier runs of this property/tier are removed
     let replay_dir = PathBuf::from(format!("{}/replays/{}", VERIF_DIR, spec.prop));
